@@ -1147,6 +1147,151 @@ pub fn flush_cuts(outs: &[Vec<u8>]) -> Vec<usize> {
 }
 
 // ------------------------------------------------------------------------------------------------
+// ------------------------------------------------------------------------------------------------
+// C04: the STRONG per-stage oracle (review A, C04-2).  `a` = the whole stream a stage receives, `b` = everything it emits,
+// both obtained from the implementation (the chain of the first j-1 / j filters on the same body, one chunk).
+//   text stages   : b == a ++ v / v ++ a / v, exactly
+//   insert stages : b with every copy of v removed is a (v must not occur in a: sentinel), and the number of copies is at
+//                   most the number of tag tokens of a (real tokenizer, independent run) whose name is on the path
+//   replace stage : cut b at the copies of v: the literal pieces must tile a with, between two pieces, exactly one ELEMENT
+//                   SPAN of the target (last path element): a start tag token named tgt up to the FIRST closer of that
+//                   name (end tag / self-closing tag), or a single void / self-closing tgt tag; spans are token aligned,
+//                   non-overlapping, in order; nothing is inserted, nothing else is removed
+// Ok(None) = holds; Ok(Some(reason)) = not applicable (sentinel hypothesis fails, empty value); Err(why) = violated.
+// ------------------------------------------------------------------------------------------------
+
+/// the HTML void elements (the harness's own statement; `VOID_ELEMENTS` of html_filter_body.rs)
+pub const VOID_ELEMENTS_H: &[&str] = &["area", "base", "br", "col", "embed", "hr", "img", "input", "link", "meta", "param", "source", "track", "wbr"];
+
+fn find_all(hay: &[u8], needle: &[u8]) -> Vec<usize> {
+    let mut v = Vec::new();
+    if needle.is_empty() || hay.len() < needle.len() {
+        return v;
+    }
+    let mut i = 0;
+    while i + needle.len() <= hay.len() {
+        if &hay[i..i + needle.len()] == needle {
+            v.push(i);
+            i += needle.len();
+        } else {
+            i += 1;
+        }
+    }
+    v
+}
+
+pub fn stage_strong(a: &[u8], b: &[u8], f: &FSpec) -> Result<Option<&'static str>, String> {
+    match f {
+        FSpec::Text { action, content } => {
+            let v = content.as_bytes();
+            let want: Vec<u8> = match action.as_str() {
+                "append_text" => [a, v].concat(),
+                "prepend_text" => [v, a].concat(),
+                "replace_text" => v.to_vec(),
+                _ => return Ok(Some("unknown text action")),
+            };
+            if b == &want[..] {
+                Ok(None)
+            } else {
+                Err(format!("text stage {action}: the output is not exactly the closed form"))
+            }
+        }
+        FSpec::Html { action, path, value, .. } => {
+            let v = value.as_bytes();
+            if v.is_empty() {
+                return if action == "replace" { Ok(Some("empty value")) } else if a == b { Ok(None) } else { Err("insert stage with an empty value changed the stream".into()) };
+            }
+            if !find_all(a, v).is_empty() {
+                return Ok(Some("value occurs in the input of the stage"));
+            }
+            let toks = tokens(a);
+            let occ = find_all(b, v);
+            if action != "replace" {
+                // strip the copies
+                let mut stripped = Vec::with_capacity(b.len());
+                let mut pos = 0;
+                for o in &occ {
+                    stripped.extend_from_slice(&b[pos..*o]);
+                    pos = o + v.len();
+                }
+                stripped.extend_from_slice(&b[pos..]);
+                if stripped != a {
+                    return Err(format!("insert stage {action}: the output without the {} copies of the value is not the input", occ.len()));
+                }
+                // the theorem's bound: one copy per tag token named on the path
+                let on_path = toks.iter().filter(|t| matches!(t.ty, TokenType::StartTagToken | TokenType::EndTagToken | TokenType::SelfClosingTagToken) && t.name.as_ref().map(|n| path.iter().any(|p| p == n)).unwrap_or(false)).count();
+                if occ.len() > on_path {
+                    return Err(format!("insert stage {action}: {} copies of the value but only {on_path} tag tokens named on the path", occ.len()));
+                }
+                // a tighter bound the code meets (checked on the implementation only): append_child inserts when an element
+                // is LEFT — at most one copy per closer (end tag / self-closing / void start tag) named on the path;
+                // prepend_child when one is ENTERED — at most one copy per opener (start / self-closing tag) named on the
+                // path.  (Not "per target element": with an absent last path element append_child acts on the parent —
+                // observation O7, C15.)
+                let named = |t: &&Tok| t.name.as_ref().map(|n| path.iter().any(|p| p == n)).unwrap_or(false);
+                let openers = toks.iter().filter(named).filter(|t| matches!(t.ty, TokenType::StartTagToken | TokenType::SelfClosingTagToken)).count();
+                let closers = toks
+                    .iter()
+                    .filter(named)
+                    .filter(|t| matches!(t.ty, TokenType::EndTagToken | TokenType::SelfClosingTagToken) || (t.ty == TokenType::StartTagToken && VOID_ELEMENTS_H.contains(&t.name.as_deref().unwrap_or(""))))
+                    .count();
+                let bound = if action == "append_child" { closers } else { openers };
+                if occ.len() > bound {
+                    return Err(format!("insert stage {action}: {} copies of the value but only {bound} openers / closers named on the path", occ.len()));
+                }
+                return Ok(None);
+            }
+            // replace
+            let tgt = match path.last() {
+                Some(t) => t.as_str(),
+                None => return Ok(Some("empty path")),
+            };
+            let is_void = VOID_ELEMENTS_H.contains(&tgt);
+            let named = |t: &Tok| t.name.as_deref() == Some(tgt);
+            let mut pieces: Vec<&[u8]> = Vec::new();
+            let mut pos = 0;
+            for o in &occ {
+                pieces.push(&b[pos..*o]);
+                pos = o + v.len();
+            }
+            pieces.push(&b[pos..]);
+            let mut apos = 0usize;
+            for (i, p) in pieces.iter().enumerate() {
+                if apos + p.len() > a.len() || &a[apos..apos + p.len()] != *p {
+                    return Err(format!("replace stage: the literal piece #{i} of the output is not the input at offset {apos}"));
+                }
+                apos += p.len();
+                if i + 1 == pieces.len() {
+                    break;
+                }
+                // an element span of tgt must start exactly here
+                let ti = match toks.iter().position(|t| t.start == apos) {
+                    Some(ti) => ti,
+                    None => return Err(format!("replace stage: substitution #{i} does not start at a token boundary (offset {apos})")),
+                };
+                let t0 = &toks[ti];
+                let single = named(t0) && (t0.ty == TokenType::SelfClosingTagToken || (t0.ty == TokenType::StartTagToken && is_void));
+                if single {
+                    apos = t0.end;
+                    continue;
+                }
+                if !(named(t0) && t0.ty == TokenType::StartTagToken) {
+                    return Err(format!("replace stage: substitution #{i} at offset {apos} does not start with a <{tgt}> start tag"));
+                }
+                let closer = toks[ti + 1..].iter().find(|t| named(t) && matches!(t.ty, TokenType::EndTagToken | TokenType::SelfClosingTagToken));
+                match closer {
+                    Some(c) => apos = c.end,
+                    None => return Err(format!("replace stage: substitution #{i} at offset {apos}: no closer of <{tgt}> follows")),
+                }
+            }
+            if apos != a.len() {
+                return Err(format!("replace stage: {} input bytes after the last piece are missing from the output", a.len() - apos));
+            }
+            Ok(None)
+        }
+    }
+}
+
 // the semantic safe-cut predicate of Proofs/FilterSplit.lean (`safeCutB`), on the REAL tokenizer
 // ------------------------------------------------------------------------------------------------
 
